@@ -24,6 +24,12 @@ CLAIMED = {
          "note": BASE_NOTE + " Numbers: decimal m*10^e with |m| small; mathematical comparison coincides with f64 comparison on this universe.", "technique": T_EVAL},
  "C05": {"text": "EvalLx (and/or/not/paren, existence tests, nested filters, @/$ scoping) evaluated by TLC over logical expressions of depth <= 3 on children that cover absence and every falsy value; replayed; selected children compared in order.",
          "note": BASE_NOTE, "technique": T_EVAL},
+ "C06": {"text": "Grammar.tla reads RFC 9535 Appendix A as a non-deterministic generator (one action family per production, blank space at every S, quote styles, escape forms, notations, redundant parentheses, number spellings); TLC enumerates all derivations within a variation budget, checks against the independent recogniser JPParse.tla that each is valid (GenSound) and parses back to the same AST (RoundTrip), and every sentence is fed to parse_json_path and JsonPath::query, which must accept it.",
+         "note": BASE_NOTE + " The ABNF is transcribed from memory, twice (generator and recogniser), and the two are cross-checked by TLC.", "technique": "TLC enumeration of the grammar machine Grammar.tla (generator) cross-checked against the recogniser JPParse.tla + replay of every sentence into the parser"},
+ "C07": {"text": "Every single-character edit (delete / insert / replace / transpose) of every canonical sentence, and renderings of ill-typed and out-of-range abstract queries, are labelled by the recogniser JPParse.tla + WellTyped (valid / invalid / unscoped); the parser must reject every invalid one (parse_json_path is Err and JsonPath::query is Err) and accept every valid one.",
+         "note": BASE_NOTE + " Strings outside the property's statement (unknown function names, blanks inside singular-query brackets, number literals beyond the model's precision) are labelled unscoped and skipped.", "technique": "TLC enumeration of Grammar.tla with Mutate actions, oracle = recogniser JPParse.tla; replay into the parser"},
+ "C13": {"text": "All spellings (within the variation budget) that the grammar machine derives from one abstract query are evaluated on three probe documents and must return exactly the specification's nodelist of the abstract query, in order; on the spec side TLC checks SpellingSame (every spelling parses to an AST with the same denotation).",
+         "note": BASE_NOTE + " Escape-sequence spellings are not part of C13's statement (they are in C06). Known finding D1 applies.", "technique": "TLC enumeration of Grammar.tla + replay of every spelling, compared with Denote of the abstract query"},
  "C10": {"text": "Regex.tla (I-Regexp core: matching by split semantics, parser for pattern text) and the function operators of JPSemantics; ~600 patterns x subject strings for match/search, every JSON type and NOTHING for length/count/value; replayed.",
          "note": BASE_NOTE + " Patterns with ^/$ excluded (ambiguous between RFC 9485 and the implementation's dialect).", "technique": T_EVAL},
  "C11": {"text": "SliceLoop.tla models the implementation's slice loop; TLC proves (bounded) that it emits exactly the declarative RFC sequence, stays in range, iterates at most len times and terminates (liveness). All (start,end,step) in a window around len plus +-BIG (abstraction of +-(2^53-1)) x lengths 0..6 and all indices are replayed into the code, also under a descendant segment.",
